@@ -3,7 +3,7 @@ From Coq Require Import List ZArith Bool.
 From NX Require Import Bytes Frame Reasm Reasm_proofs Codec Codec_proofs Family Family_proofs
   Pinned_comm Pinned_parse Pinned_parserecv.
 From Coq Require Import String.
-From NX Require PyLite Src_all Src_serialframe_proofs Src_reasm_proofs Src_reasm_generic.
+From NX Require PyLite Src_all Src_serialframe_proofs Src_reasm_proofs Src_reasm_generic Src_xorframe_proofs.
 Import ListNotations.
 
 (** frame reassembly over an ARBITRARY codec that honours the interface laws
@@ -48,7 +48,7 @@ Proof. split; [exact neg_codec_lawful|]. vm_compute. discriminate. Qed.
     unchanged).  Then the client extracts, for every chunking, exactly the frames of one scan
     with that codec's framing - the text of comm.py never looks at anything else of a codec. *)
 Section OnSource.
-Import PyLite Src_all Src_serialframe_proofs Src_reasm_proofs Src_reasm_generic.
+Import PyLite Src_all Src_serialframe_proofs Src_reasm_proofs Src_reasm_generic Src_xorframe_proofs.
 Open Scope string_scope.
 
 Theorem C20_read_frame_any_codec_src : forall cdc K kf, implements cdc K kf ->
@@ -68,6 +68,16 @@ Proof. exact gsrc_recv_all_scan. Qed.
 (** not vacuous: the built-in codec object implements the built-in codec record *)
 Theorem C20_builtin_implements_src : implements sf serial_codec 3.
 Proof. exact sf_implements. Qed.
+
+(** a CUSTOM codec written in Python (class XorFrame of the harness prelude: start 0x7E, id,
+    16-bit little-endian length, one-byte XOR footer - translated and interpreted like the
+    library): it is the family member [xm], so with it the interpreted client delivers, for
+    every chunking, exactly the frames of one scan with that codec's framing; and it round-trips *)
+Theorem C20_custom_codec_src : forall F chunks,
+  wf_link chunks ->
+  (4 + List.length (List.concat chunks) + List.length chunks <= F)%nat ->
+  exists rest, gsrc_recv_all xf F chunks = Some (fst (kscan (fam_codec xm) (List.concat chunks)), rest).
+Proof. exact xf_recv_all_scan. Qed.
 End OnSource.
 
 Print Assumptions C20_reassembly_any_codec.
@@ -75,3 +85,4 @@ Print Assumptions C20_family_lawful.
 Print Assumptions C20_family_reassembly.
 Print Assumptions C20_reassembly_any_codec_src.
 Print Assumptions C20_builtin_implements_src.
+Print Assumptions C20_custom_codec_src.
